@@ -57,6 +57,14 @@ def check(repo, res, tier):
     predicates(repo, res, canon, pc, logic, plogic)
     a6(repo, res, canon, pc)
     a8(repo, res, canon, logic)
+    from . import initial
+    res.rule('C08.A12', 'initial state: no arrays in use, telescope not in use, no ingest machine reserved')
+    initial.check_values(repo, res, 'C08.A12', [('Telescope', 'telescope_use', 0), ('Telescope', 'telescope_status', False),
+                                                ('Scheduler', 'provision_ingest', 0)],
+                         {('Telescope', 'telescope_use'): 'arrays that nobody holds are counted as in use for ever: an observation '
+                                                          'that needs all arrays never starts',
+                          ('Telescope', 'telescope_status'): 'the telescope never reports idle before its first observation',
+                          ('Scheduler', 'provision_ingest'): 'an ingest machine nobody reserved counts against the ingest limit for ever'})
     a9(repo, res, canon)
 
 
